@@ -269,7 +269,7 @@ func (x *fnCtx) startAtHeader(st *State, fr *Frame, h *ssa.BasicBlock, ord int) 
 				}
 			case *ssa.DebugRef:
 				if obj := v.Object(); obj != nil {
-					if _, isVar := obj.(*types.Var); isVar {
+					if tv, isVar := obj.(*types.Var); isVar && !tv.IsField() {
 						if old, ok := fr.names[obj.Name()]; ok && old.isAddr && !v.IsAddr {
 							if al, isAlloc := allocOf(fr, old.v); isAlloc && al.Comment == obj.Name() {
 								continue
